@@ -7,6 +7,7 @@ mod c10;
 mod c11;
 mod c12;
 mod c13;
+mod c14;
 mod c17;
 mod c18;
 mod gen;
@@ -75,6 +76,7 @@ fn main() {
         "C11" => c11::run(seed, count, thorough, &mut out),
         "C12" => c12::run(seed, count, thorough, &mut out),
         "C13" => c13::run(seed, count, thorough, &mut out),
+        "C14" => c14::run(seed, count, thorough, &mut out),
         "C17" => c17::run(&mut out),
         "C18" => c18::run(seed, count, thorough, &mut out),
         other => {
